@@ -32,14 +32,23 @@ const (
 	vcSTARTTLS
 	vcAUTH
 	vcEHLOnoarg
+	vcBDAT
+	vcBDATbig
 	vcNumCmds
 )
+
+// the chunk that follows each BDAT command of the alphabet; Server.MaxMessageBytes
+// is verifC03Limit in the C03 harnesses, so the second one is refused for its size
+const verifC03Limit = 5
+
+var verifCmdPayload = map[int]string{vcBDAT: "hi", vcBDATbig: "123456789"}
 
 var verifCmdText = [...]string{
 	vcEHLO: "EHLO c.example", vcHELO: "HELO c.example", vcLHLO: "LHLO c.example",
 	vcMAIL: "MAIL FROM:<a@v>", vcMAILbad: "MAIL FROM:<a", vcRCPT: "RCPT TO:<b@v>", vcRCPT2: "RCPT TO:<c@v>",
 	vcRCPTbad: "RCPT TO:<>", vcDATA: "DATA", vcDATAarg: "DATA now", vcRSET: "RSET", vcNOOP: "NOOP", vcVRFY: "VRFY x",
 	vcQUIT: "QUIT", vcUNKNOWN: "FROB x", vcSTARTTLS: "STARTTLS", vcAUTH: "AUTH PLAIN", vcEHLOnoarg: "EHLO",
+	vcBDAT: "BDAT 2 LAST", vcBDATbig: "BDAT 9 LAST",
 }
 
 type vexpect struct {
@@ -151,6 +160,26 @@ func (r *vref) step(cmd int, accept bool) (class int) {
 		return 2
 	case vcDATAarg:
 		return 5
+	case vcBDAT:
+		if !r.mail || r.rcpts == 0 {
+			return 5
+		}
+		r.expected = append(r.expected, vexpect{"Data", ""})
+		r.expected = append(r.expected, vexpect{"Reset", ""})
+		r.mail, r.rcpts = false, 0
+		if !accept {
+			return 5
+		}
+		return 2
+	case vcBDATbig:
+		if !r.mail || r.rcpts == 0 {
+			return 5
+		}
+		// over the size limit: a failed chunk ends the transaction, nothing
+		// reaches the backend but Reset
+		r.expected = append(r.expected, vexpect{"Reset", ""})
+		r.mail, r.rcpts = false, 0
+		return 5
 	case vcRSET:
 		if r.greeted {
 			r.expected = append(r.expected, vexpect{"Reset", ""})
@@ -177,6 +206,8 @@ func (r *vref) step(cmd int, accept bool) (class int) {
 }
 
 func verif_C03_run() {
+	verifPreemptBound(0)
+	verifSchedForkBound(0)
 	k := verifBound(3, 4)
 	lmtp := nondetBool()
 	maxRcpt := 0
@@ -196,7 +227,7 @@ func verif_C03_run() {
 	be.mailErr = func(string) error { return verdict() }
 	be.rcptErr = func(string) error { return verdict() }
 	be.dataFn = func(_ *vsession, r io.Reader) error {
-		_, e := verifReadAll(r, 8)
+		_, e := verifReadAll(r, 16)
 		if e != io.EOF {
 			return errors.New("verif: data reader failed")
 		}
@@ -205,6 +236,7 @@ func verif_C03_run() {
 	s, lg := verifServer(be)
 	s.LMTP = lmtp
 	s.MaxRecipients = maxRcpt
+	s.MaxMessageBytes = verifC03Limit
 
 	ref := &vref{lmtp: lmtp, maxRcpt: maxRcpt}
 	cmds := []int{}
@@ -238,6 +270,7 @@ func verif_C03_run() {
 		sent++
 		c.in = append(c.in, verifCmdText[cmd]...)
 		c.in = append(c.in, "\r\n"...)
+		c.in = append(c.in, verifCmdPayload[cmd]...)
 		if cmd == vcDATA {
 			pendingBody = true
 		}
@@ -262,7 +295,7 @@ func verif_C03_run() {
 		switch cmd {
 		case vcEHLO, vcHELO, vcLHLO:
 			acc = newSessAccept
-		case vcMAIL, vcRCPT, vcRCPT2, vcDATA:
+		case vcMAIL, vcRCPT, vcRCPT2, vcDATA, vcBDAT:
 			// consumes a verdict iff the reference says the callback happens
 			pre := len(ref.expected)
 			probe := *ref
@@ -404,6 +437,8 @@ func verif_C03_starttls_stub() {
 // history length: the agreement with the reference holds for histories of
 // every length over the alphabet (BDAT/AUTH/STARTTLS states are outside).
 func verif_C03_step() {
+	verifPreemptBound(0)
+	verifSchedForkBound(0)
 	lmtp := nondetBool()
 	maxRcpt := 0
 	if nondetBool() {
@@ -427,7 +462,7 @@ func verif_C03_step() {
 	be.mailErr = func(string) error { return verdict() }
 	be.rcptErr = func(string) error { return verdict() }
 	be.dataFn = func(_ *vsession, r io.Reader) error {
-		verifReadAll(r, 8)
+		verifReadAll(r, 16)
 		return verdict()
 	}
 	if !acc {
@@ -436,11 +471,13 @@ func verif_C03_step() {
 	s, lg := verifServer(be)
 	s.LMTP = lmtp
 	s.MaxRecipients = maxRcpt
+	s.MaxMessageBytes = verifC03Limit
 	cmd := verifChoice(vcNumCmds)
 	vc := &vconn{final: io.EOF}
 	if cmd == vcDATA {
 		vc.in = []byte("hi\r\n.\r\n")
 	}
+	vc.in = append(vc.in, verifCmdPayload[cmd]...)
 	c := newConn(vc, s)
 	if greeted {
 		sess := &vsession{b: be, id: 1}
@@ -496,6 +533,7 @@ func verif_C03_step() {
 	verifAssert((c.helo != "") == ref.greeted && (c.session != nil) == ref.greeted, "C03.step-greeting-matches-reference")
 	verifAssert(c.errCount == ref.errs && c.errCount <= 3, "C03.step-error-count-matches-reference")
 	verifAssert(c.bdatPipe == nil && !c.didAuth, "C03.step-no-transfer-no-auth")
+	verifAssert(c.text.R.Buffered() == 0 || cmd == vcDATA && class == 5, "C03.step-chunk-consumed")
 	verifAssert(!(ref.rcpts > 0) || ref.mail, "C03.step-inv-rcpts-imply-mail")
 	verifAssert(!ref.mail || ref.greeted, "C03.step-inv-mail-implies-greeted")
 	verifAssert(maxRcpt == 0 || len(c.recipients) <= maxRcpt, "C03.step-inv-recipient-limit")
